@@ -130,6 +130,19 @@ def nearest(root, rel):
     return cur
 
 
+def nearest_exact(root, rel):
+    """nearest existing node along rel, by exact child names (list children are named 0..n-1)"""
+    cur = root
+    for c in rel:
+        if not cur.composed() or (cur.kind == 'seq' and (isinstance(c, bool) or not isinstance(c, int) or c < 0)):
+            break
+        nxt = cur.get(c)
+        if nxt is None:
+            break
+        cur = nxt
+    return cur
+
+
 def filt(node, cond, rel=(), removed=None):
     """filter_nodes: drop children for which cond is false and that keep no descendant"""
     keep_items = []
@@ -182,7 +195,11 @@ def merge(O, N, path=(), strict_domain=False):
                 raise ModelError('MergeError', f'mapping key {k!r} does not address an existing index of the list at {path!r}', path)
     if O.kind == 'seq':
         # newer deleting nodes that are outranked by what the list already holds are dropped first
-        filt(N, lambda rel, d: True if not d.dele else d.prio >= nearest(O, rel).prio)
+        def keep_new(rel, d):
+            if not d.dele:
+                return True
+            return d.prio >= nearest_exact(O, rel).prio
+        filt(N, keep_new)
     if N.dele:
         removed = set()
         filt(O, lambda rel, e: e.prio > nearest(N, rel).prio, removed=removed)
